@@ -123,6 +123,25 @@ class BlockAnalysis:
                     # integer input is promoted; on the other path the dtype is inexact already
                     self.inexact.add(b['__x'])
                     return
+            # a boolean flag that was raised inside the branch of one conditional permutation stands for that guard
+            if isinstance(s.test, ast.Name) and s.test.id in getattr(self, 'flags', {}):
+                self.cond_perm(s, self.flags[s.test.id])
+                return
+            rets = [r for st in s.body for r in ast.walk(st) if isinstance(r, ast.Return)]
+            if rets and not getattr(self, 'in_dummy', False):
+                # a branch that builds (., 1) / (1, .) factors is the dummy-bond branch: it may be entered exactly when the
+                # two charge vectors share no value
+                dummy_like = any(isinstance(c, ast.Call) and norm(c.func) == 'np.zeros' and c.args and
+                                 isinstance(c.args[0], ast.Tuple) and any(norm(e) == '1' for e in c.args[0].elts)
+                                 for st in s.body for c in ast.walk(st))
+                if dummy_like and self.counts['dummy'] == 0:
+                    self.ok('dummy', s, False, f'the dummy-bond branch is entered exactly when the charge vectors share no value '
+                            f'(`len(np.intersect1d(q0, q1)) == 0`); found the condition `{norm(s.test)[:80]}`')
+                    self.dummy(s)
+                    return
+                self.ok('return', s, False, f'every returning path runs through the sorted block loop (or the dummy-bond branch): '
+                        f'`if {norm(s.test)[:60]}: ... return` hands back factors that the frame / charge argument does not cover')
+                return
             raise AnalysisError(f'{self.fi.qual}: conditional `{norm(s.test)[:60]}` is not a recognised idiom')
         if isinstance(s, ast.For):
             self.loop(s)
@@ -177,6 +196,11 @@ class BlockAnalysis:
             raise AnalysisError(f'{self.fi.qual}: target `{norm(t)}` not recognised')
         name = t.id
         vt = norm(v)
+        if isinstance(v, ast.Constant) and v.value is False:
+            if not hasattr(self, 'flag_init'):
+                self.flag_init = {}
+            self.flag_init[name] = False
+            return
         # q = np.array(q)
         b = pmatch('np.array(__x)', v)
         if b is not None and b['__x'] == name and isinstance(env.get(name), Vec):
@@ -309,6 +333,17 @@ class BlockAnalysis:
                 ast.copy_location(st2, st)
                 ast.fix_missing_locations(st2)
                 st = st2
+            if isinstance(st, ast.Assign) and len(st.targets) == 1 and isinstance(st.targets[0], ast.Name) and \
+                    isinstance(st.value, ast.Constant) and st.value.value is True and \
+                    getattr(self, 'flag_init', {}).get(st.targets[0].id) is False:
+                if not hasattr(self, 'flags'):
+                    self.flags = {}
+                if st.targets[0].id in self.flags and self.flags[st.targets[0].id] != pname:
+                    # raised under two different guards: it stands for neither
+                    self.flags[st.targets[0].id] = None
+                else:
+                    self.flags[st.targets[0].id] = pname
+                continue
             if not (isinstance(st, ast.Assign) and len(st.targets) == 1 and isinstance(st.targets[0], ast.Name) and
                     isinstance(st.value, ast.Subscript) and norm(st.value.value) == st.targets[0].id):
                 raise AnalysisError(f'{self.fi.qual}: `{norm(st)[:60]}` inside a conditional permutation not recognised')
